@@ -458,6 +458,24 @@ def main(tier):
 
 
 def finish(c):
+    # statement-granular interleaving model of the two Next methods in lock-step on the real goroutines
+    # (props/C19_ls.v: refinement to the three-step concurrent semantics, budget and bounds for every schedule)
+    try:
+        import part_retryls
+        ov, labels = c.instrument()
+        if ov is None:
+            c.report("C19:retryls:instrument", "the instrumenter cannot process the retry files", {"kind": "build", "log": str(labels)[-2000:]}, found_input=False)
+        else:
+            b2, log2 = c.build_harness(extra_overlay=ov, pkgs=["c19", "retryls", "lockstep"])
+            if b2 is None:
+                c.report("C19:retryls:build", "instrumented harness does not build", {"kind": "build", "log": log2[-2000:]}, found_input=False)
+            else:
+                part_retryls.run(c, b2, labels, c.tier, "c19")
+    except SystemExit:
+        raise
+    except Exception:
+        import traceback
+        c.report("C19:retryls:crash", "check part retryls crashed", {"kind": "internal", "trace": traceback.format_exc()[-3000:]}, found_input=False)
     c.finish(
         level="proof",
         rule="cases from VERIF_SEED: (initial, max, maxRetries) triples incl. products that overflow 64 bits (initial near 2^40, 2^62, 1, "
